@@ -443,6 +443,34 @@ def _run_case_inner(case, acc):
     if so is not None:
         acc.check('sortino', _close(js['sortino'], so), case, {'via': 'json'}, js['sortino'], so)
 
+    # ---- a benchmark curve gets ITS OWN statistics (the reversed curve on the same dates), the strategy block is unaffected ----
+    rev = list(reversed(equity))
+    r_b = spec_returns(rev)
+    jb = _call(lambda: JSONStatistics(equity_curve=pd.DataFrame({'Equity': list(equity)}, index=idx),
+                                      target_allocations=pd.DataFrame(), periods=periods,
+                                      benchmark_curve=pd.DataFrame({'Equity': rev}, index=idx)).statistics)
+    if isinstance(jb, str) or 'benchmark' not in jb:
+        acc.check('tearsheet-json-agree', False, case, {'what': 'json-with-benchmark-runs'}, jb if isinstance(jb, str) else sorted(jb), 'runs')
+    else:
+        for block, rr, tot in (('benchmark', r_b, rev[-1] / rev[0]), ('strategy', r, total)):
+            for kind, key in (('monthly', 'monthly_agg_returns'), ('yearly', 'yearly_agg_returns')):
+                got = {}
+                for k, v in jb[block][key]:
+                    got[tuple(int(i) for i in (k if isinstance(k, tuple) else (k,)))] = float(v)
+                exp = spec_aggregate(dates, rr, kind)
+                ok = sorted(got) == sorted(exp) and all(_close(got[k], exp[k]) for k in exp)
+                acc.check('%s-aggregates-compound-to-total' % kind, ok, case, {'via': 'json+benchmark', 'block': block, 'what': key},
+                          sorted(got.items())[:6], sorted(exp.items())[:6])
+            exp = _call(spec_cagr, tot, n, periods)
+            if not isinstance(exp, str):
+                acc.check('cagr', _close(jb[block]['cagr'], exp), case, {'via': 'json+benchmark', 'block': block}, jb[block]['cagr'], exp)
+            at = _list_close(_vals(jb[block]['returns']), rr)
+            acc.check('cumulative-returns', at is None, case, {'via': 'json+benchmark', 'block': block, 'what': 'returns', 'first_diff_at': at},
+                      _short(_vals(jb[block]['returns']), at), _short(rr, at))
+        mdd_b = spec_drawdowns(rev)[1]
+        acc.check('max-drawdown', _close(jb['benchmark']['max_drawdown'], mdd_b), case, {'via': 'json+benchmark', 'block': 'benchmark'},
+                  jb['benchmark']['max_drawdown'], mdd_b)
+
     # ---- tear-sheet and JSON export report the same numbers ----
     for name, a, b in (('sharpe', tear['sharpe'], js['sharpe']),
                        ('max_drawdown', tear['max_drawdown'], js['max_drawdown']),
